@@ -26,7 +26,7 @@ EXPLANATION = (
 NOT_DECIDED = ["linearizability of arbitrary operation histories (run-time)", "byte-offset arithmetic inside xdr_seek.c / dcdplugin.c",
                "that tell() of DCD (fh.setsread maintained in C) matches the frames returned"]
 ASSUMPTIONS = ["read_next_timestep / read_xtc / read_trr advance the C file pointer by exactly one frame on success"]
-FLOORS = {"C18-R1": 24, "C18-R2": 2, "C18-R3": 6, "C18-R4": 5, "C18-R5": 10, "C18-R6": 2}
+FLOORS = {"C18-R1": 24, "C18-R2": 2, "C18-R3": 6, "C18-R4": 5, "C18-R5": 10, "C18-R6": 5}
 
 SEEKERS = ["h5", "nc", "xtc", "trr", "dcd", "dtr", "mdcrd", "xyz", "lammpstrj", "lh5"]
 POS_NAMES = ("self._frame_index", "self.frame_counter", "current_pos", "self.tell()")
@@ -114,6 +114,7 @@ def check(ctx):
     ctx.rule("C18-R3", "sequential readers advance the position once per frame returned: the increment post-dominates every raise of _read; XDR readers add len(returned frames)")
     ctx.rule("C18-R4", "seek()/len() re-open the file with the opener the constructor used and reset every counter the constructor initialises")
     ctx.rule("C18-R5", "the position field is assigned in the constructor and is not class-level or module-level state")
+    r6_len_is_read_total(ctx)
     ctx.rule("C18-R6", "the offset scan used by len() saves the C file position first and restores it in a finally block")
 
     _r1(ctx)
@@ -540,3 +541,21 @@ def _subst(expr, natoms):
 
 def _contains(root, node):
     return any(n is node for n in ast.walk(root))
+
+
+def r6_len_is_read_total(ctx):
+    """Array-backed readers: len() returns the quantity that bounds the read window (both sides of the cursor invariant 0 <= position <= len)."""
+    for key in ("h5", "nc", "lh5"):
+        rel, cls = F.rel_cls(key)
+        rd = F.method(ctx, key, "read")
+        ln = F.method(ctx, key, "__len__")
+        tot = [n for n in walk_no_nested(rd) if isinstance(n, ast.Assign) and dotted(n.targets[0]) in ("total_n_frames", "n_total", "total")]
+        rets = [n for n in walk_no_nested(ln) if isinstance(n, ast.Return) and n.value is not None]
+        if len(tot) != 1 or not rets:
+            ctx.undecided("C18-R6", rd, rel, cls + ".read", "total number of frames", "the bound of the read window / the return of __len__ was not found")
+            continue
+        t = src(tot[0].value).replace(" ", "")
+        got = sorted({src(r.value).replace(" ", "") for r in rets})
+        ok = got == [t]
+        ctx.decide(ok, "C18-R6", rets[0], rel, cls + ".__len__", "len() returns `%s`, the bound read() clamps its window to" % t, "",
+                   "len() returns %s while read() clamps its window to `%s`: the two can disagree (another variable, another backend), and tell() <= len() is no longer guaranteed" % (got, t))
